@@ -313,6 +313,9 @@ async def _one(case, token, obs, streams=None, cancel_fn=None):
         k = len(cbs)
         cbs.append([progress, total, message])
         cb_ticks.append(loop.ticks - t0)
+        if case.get("cbSleep"):
+            # a callback that takes time (writes a progress bar, awaits a UI): the wait goes on afterwards
+            await anyio.sleep(case["cbSleep"] * vloop.TICK)
         act = case.get("cbAction")
         if act and k == act[1]:
             # re-entrancy: the callback uses the objects the call itself is using
@@ -375,7 +378,7 @@ async def _one(case, token, obs, streams=None, cancel_fn=None):
                 if token is not None:
                     kwargs["cancellation_token"] = token
                 if case.get("progress"):
-                    kwargs["progress_callback"] = cb
+                    kwargs["progress_callback"] = _cb_form(cb, case.get("cbForm", "func"))
                 params = case.get("params")
                 if params is not None:
                     import copy
@@ -414,6 +417,31 @@ async def _one(case, token, obs, streams=None, cancel_fn=None):
     obs["sent_id"] = ctx["id"]
     obs["tok"] = ctx["tok"]
     return obs
+
+
+def _cb_form(cb, form):
+    """the same callback as the kinds of callable a caller may pass where an async callable is
+    documented: a coroutine function, an object with `async def __call__`, a lambda / plain function /
+    functools.partial returning the coroutine"""
+    if form == "object":
+        class Reporter:
+            async def __call__(self, progress, total, message):
+                return await cb(progress, total, message)
+        return Reporter()
+    if form == "lambda":
+        return lambda progress, total, message: cb(progress, total, message)
+    if form == "partial":
+        import functools
+
+        async def with_ctx(_ctx, progress, total, message):
+            return await cb(progress, total, message)
+        return functools.partial(with_ctx, "ctx")
+    if form == "method":
+        class Ui:
+            async def on_progress(self, progress, total, message):
+                return await cb(progress, total, message)
+        return Ui().on_progress
+    return cb
 
 
 def make_token(kind):
